@@ -17,8 +17,15 @@ _EWW = {'e': 'East', 'w': 'West'}
 TWPRGE_SPELLINGS = ('compact', 'words', 'abbr', 'dashed', 'lower', 'bare')
 
 
-def render_twprge(tr, spelling):
+def render_twprge(tr, spelling, zeros=False):
     t, ns, r, ew = tr
+    if zeros:
+        # leading zeros (never turning range 2 into something else)
+        t = f"{t:03d}" if t >= 10 else f"{t:02d}"
+        r = f"{r:03d}" if r >= 10 else f"{r:02d}"
+        if spelling == 'bare' and int(r) == 2:
+            spelling = 'compact'
+        tr = (t, ns, r, ew)
     NS, EW = ns.upper(), ew.upper()
     if spelling == 'compact':
         return f"T{t}{NS}-R{r}{EW}"
@@ -31,7 +38,7 @@ def render_twprge(tr, spelling):
     if spelling == 'lower':
         return f"t{t}{ns}r{r}{ew}"
     if spelling == 'bare':
-        if r == 2:
+        if r == 2 or r == '02':
             # Range '2' is only documented with an explicit 'R'.
             return f"T{t}{NS}-R{r}{EW}"
         return f"{t}{NS}-{r}{EW}"
@@ -76,6 +83,8 @@ def gen_sec_group(rng, maxsec=99):
 def render_sec_group(rng, nums, kind, word=None):
     w = word or rng.choice(SEC_WORDS)
     sp = '' if (w == '§' and rng.random() < 0.5) else ' '
+    if rng.random() < 0.08:
+        nums = [f"{n:02d}" for n in nums]      # '05' style
     if kind is None:
         return f"{w}{sp}{nums[0]}"
     pl = ''
@@ -161,7 +170,7 @@ def render(rng, groups, layout, choices=None):
         if gi:
             b.add(gsep)
         sp = rng.choice(TWPRGE_SPELLINGS) if mixed else spelling
-        trtxt = render_twprge(tr, sp)
+        trtxt = render_twprge(tr, sp, zeros=rng.random() < 0.08)
 
         def entries(sec_first):
             for si, (n, k, blk, _) in enumerate(secs):
